@@ -84,7 +84,7 @@ def execute(env: Env, calls, hashseed=0, shards=16, script='run_calls.py', extra
 
 
 def validate(trace, conf, module='PureTrace', cfg=None, chunk=20000, extra_env=None, timeout=1800,
-             parallel=8):
+             parallel=8, split_on=None):
     """code -> spec: TLC validates the trace (chunked, one worker per chunk).  Returns
     dict(lines, fails=[(global line index, [clauses])], cover={tag: n}, wall)."""
     cfg = cfg or module + '.cfg'
@@ -93,8 +93,14 @@ def validate(trace, conf, module='PureTrace', cfg=None, chunk=20000, extra_env=N
     with open(trace) as f:
         buf, idx = [], 0
         for line in f:
+            if split_on and len(buf) >= chunk and split_on in line[:80]:
+                p = os.path.join(d, 'c%d.ndjson' % len(chunks))
+                open(p, 'w').writelines(buf)
+                chunks.append((p, idx, len(buf)))
+                idx += len(buf)
+                buf = []
             buf.append(line)
-            if len(buf) >= chunk:
+            if not split_on and len(buf) >= chunk:
                 p = os.path.join(d, 'c%d.ndjson' % len(chunks))
                 open(p, 'w').writelines(buf)
                 chunks.append((p, idx, len(buf)))
